@@ -327,6 +327,17 @@ class HistogramBase(abc.ABC):
             )
         return dtype, type_info
 
+    @staticmethod
+    def _outside_range(array: np.ndarray, type_info) -> np.ndarray:
+        """Which values do not fit the type.
+
+        (type_info.max of an integer type is not representable in narrower floats and
+        would be rounded up to the first value that does not fit.)
+        """
+        if isinstance(type_info, np.iinfo) and array.dtype.kind == "f":
+            return (array >= float(type_info.max) + 1) | (array < float(type_info.min))
+        return (array > type_info.max) | (array < type_info.min)
+
     @classmethod
     def _cast_content(cls, values: ArrayLike, dtype: DTypeLike) -> np.ndarray:
         """Convert values to the dtype, refusing what would not survive it (see set_dtype)."""
@@ -335,7 +346,7 @@ class HistogramBase(abc.ABC):
         if array.dtype.kind in "iuf" and not np.can_cast(array.dtype, dtype):
             if dtype.kind in "iu" and array.dtype.kind == "f" and np.any(array % 1.0):
                 raise ValueError("Data contain non-integer values.")
-            outside = (array > type_info.max) | (array < type_info.min)
+            outside = cls._outside_range(array, type_info)
             if dtype.kind == "f":
                 outside &= np.isfinite(array)  # Infinities have their representation
             if np.any(outside):
@@ -378,7 +389,7 @@ class HistogramBase(abc.ABC):
                         if np.any(array % 1.0):
                             raise ValueError("Data contain non-integer values.")
             for array in (self.frequencies, self.errors2):
-                if np.any((array > type_info.max) | (array < type_info.min)):
+                if np.any(self._outside_range(array, type_info)):
                     raise ValueError("Data contain values outside the specified range.")
 
         self._dtype = value
